@@ -38,6 +38,7 @@ type node struct {
 	localQueries int
 	peerQueries  int
 	dials        int
+	lastDial     net.IP     // connect address of the host dialled last
 	conns        []net.Conn // server side ends
 	registered   []net.Conn // server side ends that sent REGISTER
 	wmu          map[net.Conn]*sync.Mutex
@@ -60,6 +61,7 @@ func (n *node) DialHost(ctx context.Context, host *gocql.HostInfo) (*gocql.Diale
 	c, s := net.Pipe()
 	n.mu.Lock()
 	n.dials++
+	n.lastDial = host.ConnectAddress()
 	n.conns = append(n.conns, s)
 	n.wmu[s] = &sync.Mutex{}
 	n.mu.Unlock()
@@ -153,7 +155,8 @@ func (n *node) serve(c net.Conn) {
 					q = string(body[4 : 4+l])
 				}
 			}
-			err = n.write(c, stream, n.answer(q))
+			rop, rbody := n.answer(q)
+			err = n.write(c, stream, rop, rbody)
 		default:
 			var b []byte
 			b = putInt(b, 0x000A) // protocol error
